@@ -13,6 +13,35 @@ import (
 // before the point in a small class), 1..2P+5 digits, either sign.
 func ExpArg(t *rapid.T, c core.Ctx, label string) core.Dec {
 	p := int(c.P)
+	if p > 0 && Pick(t, 16, label+"nearrep") == 1 {
+		// x = ln(v), to 60 places, of a value v of at most Precision digits placed in the
+		// context's subnormal region (half the cases), at the top of its range or near 1: e^x is
+		// within 10^-55 of a representable number, so the final rounding of an implementation
+		// that works with guard digits drops zeros (or nines) only
+		vd := strings.TrimLeft(DigitsN(t, rapid.IntRange(1, p).Draw(t, label+"nrn"), 9, label+"nrv"), "0")
+		if vd == "" {
+			vd = "7"
+		}
+		var e int
+		switch Pick(t, 4, label+"nrwhere") {
+		case 0, 1:
+			e = int(c.Emin) - rapid.IntRange(-1, p+1).Draw(t, label+"nrsub")
+		case 2:
+			e = int(c.Emax) - rapid.IntRange(-1, 2).Draw(t, label+"nrtop")
+		default:
+			e = rapid.IntRange(-30, 30).Draw(t, label+"nrmid")
+		}
+		if e < -Limit+100 {
+			e = -Limit + 100
+		}
+		if e > Limit-100 {
+			e = Limit - 100
+		}
+		vb, _ := new(big.Int).SetString(vd, 10)
+		const w = 60
+		r := ref.NewFP(w).LnDec(vb, int64(e-len(vd)+1))
+		return core.Dec{Coeff: new(big.Int).Abs(r.Lo).String(), Exp: -w, Neg: r.Lo.Sign() < 0}
+	}
 	s := Digits(t, 2*p+5, label)
 	if s == "0" {
 		s = "1"
